@@ -178,6 +178,17 @@ Theorem wal_saved_file : forall s0 pre,
 Proof. exact C17_Wal.saved_file_is_w_file. Qed.
 Print Assumptions wal_saved_file.
 
+(* The reader on ANY file that is the serialisation of consecutively numbered records f, f+1, ... (however the
+   writer segmented, carried or truncated its buffers to produce it): the records numbered after+1 and later, in
+   order. The writer's segmentation policy is not part of the property; wal_replays_suffix above is this fact
+   composed with the invariant of the current writer. *)
+Theorem wal_reader_any_segmentation : forall f L after,
+  Forall rec_ok L -> f + N.of_nat (length L) <= 18446744073709551616 -> after + 1 < 18446744073709551616 ->
+  f <= after + 1 -> after + 1 <= f + N.of_nat (length L) ->
+  wal_read_all (ser_wal f L) after = WOk (decs (after + 1) (skipn (N.to_nat (after + 1 - f)) L)).
+Proof. exact C17_Wal.wal_read_all_ser. Qed.
+Print Assumptions wal_reader_any_segmentation.
+
 (* ---------- the code before the repairs violated the property (witnesses on the old models) ---------- *)
 Theorem old_get_panics_before_first_key_refuted :
   exists es key, Forall entry_ok es /\ keys_sorted es = true /\ blen (ser_entries es) < 4294967296 /\
